@@ -152,7 +152,7 @@ class Inotify:
         self._inotify_fd = inotify_fd
         self._lock = threading.Lock()
         self._closed = False
-        self._is_reading = True
+        self._is_reading = False
         try:
             self._kill_r, self._kill_w = os.pipe()
         except OSError:
